@@ -3,6 +3,7 @@ import math
 import operator
 
 import common
+import c12_joins
 from e2e import try_
 from common import sx, Some
 
@@ -82,7 +83,7 @@ def canon_shuffle_layer(node, layer):
         n_in = len(rgk)
         for k in rgk:
             t = layer[k]
-            assert t[0] is shuffle_group_2 and t[1] == (names[-1], k[1]) and t[2] == node.partitioning_index and t[3] == node.ignore_index
+            assert t[0] in (shuffle_group_2, getattr(node, "_shuffle_group_2", None)) and t[1] == (names[-1], k[1]) and t[2] == node.partitioning_index and t[3] == node.ignore_index
             n_out = t[4]
         gets = []
         ks = sorted((k for k in layer if k[0] == own and len(k) == 2), key=lambda k: k[1])
@@ -100,6 +101,54 @@ def canon_shuffle_layer(node, layer):
     for k in layer:
         assert k[0] in known, ("unexpected key", k)
     return stages, rg, names
+
+
+def group_contract(run):
+    """The two splitting functions the layers call (since D119 dask-expr's own: SimpleShuffle._shuffle_group / _shuffle_group_2)
+    against what the model assumes of them: stage s of a k-ary shuffle sends a row with precomputed partition number t to
+    piece (t mod npartitions) // k^s mod k, the regrouping step sends it to piece t; rows keep their order inside a piece;
+    an output filter keeps exactly the listed pieces."""
+    import rt
+    import pandas as pd
+    from dask_expr._shuffle import SimpleShuffle
+    rng = run.rng
+    g2 = getattr(SimpleShuffle, "_shuffle_group_2", None)
+    n = 0
+    for col in ("_partitions", "__partitions", "p"):
+        for npart, k in ((1, 2), (3, 2), (4, 2), (5, 3), (9, 3), (16, 4), (7, 8), (40, 32)):
+            nrows = 30
+            targets = [rng.randrange(0, max(1, npart)) for _ in range(nrows)]
+            df = pd.DataFrame({"row": range(nrows), col: targets})
+            stages = 1
+            while k ** stages < npart:
+                stages += 1
+            for stage in range(stages):
+                for flt in (None, {0}, set(range(k)) - {0}):
+                    n += 1
+                    run.count(("group-contract", col, npart, k, stage, None if flt is None else tuple(sorted(flt))))
+                    r = try_(lambda: SimpleShuffle._shuffle_group(df, flt, col, stage, k, npart, False, npart))
+                    exp = {}
+                    for i, t in enumerate(targets):
+                        exp.setdefault((t % npart) // k ** stage % k, []).append(i)
+                    if flt is not None:
+                        exp = {d: v for d, v in exp.items() if d in flt}
+                    got = None if r[0] == "raise" else {int(d): list(v["row"]) for d, v in r[1].items() if len(v)}
+                    if got != exp:
+                        run.broken_tie("contract of SimpleShuffle._shuffle_group (piece = (t mod npartitions) // k^stage mod k, order kept, filter)",
+                                       {"column": col, "npartitions": npart, "k": k, "stage": stage, "filter": None if flt is None else sorted(flt), "targets": targets,
+                                        "real": r[1] if r[0] == "raise" else {str(a): b for a, b in got.items()}, "expected": {str(a): b for a, b in exp.items()}})
+            if g2 is not None:
+                n += 1
+                run.count(("group2-contract", col, npart))
+                r = try_(lambda: g2(df, col, False, npart))
+                exp = {}
+                for i, t in enumerate(targets):
+                    exp.setdefault(t, []).append(i)
+                got = None if r[0] == "raise" else {int(d): list(v["row"]) for d, v in r[1][0].items() if len(v)}
+                if got != exp:
+                    run.broken_tie("contract of SimpleShuffle._shuffle_group_2 (piece = precomputed partition number, order kept)",
+                                   {"column": col, "npartitions": npart, "targets": targets, "real": r[1] if r[0] == "raise" else {str(a): b for a, b in got.items()}})
+    run.section("group_contract", cases=n)
 
 
 def layer_sweep(run, model, N, branches):
@@ -342,16 +391,40 @@ def e2e(run, N, branches):
 
 def run(run):
     run.trusted = common.COMMON_TRUSTED + [
-        "dask.dataframe.shuffle.shuffle_group / shuffle_group_2 / shuffle_group_get / collect / partd and pandas hashing are modelled by `piece`/`exec_regroup`/`disk_collect` (rows grouped by (target mod np) // k^stage mod k); validated by the E2E sweep only",
+        "the splitting functions SimpleShuffle._shuffle_group / _shuffle_group_2 (dask-expr's own since fix D119) are modelled by `piece`/`exec_regroup` (rows grouped by (target mod np) // k^stage mod k) and tied by the group_contract sweep; dask.dataframe.shuffle.shuffle_group_get / collect / partd, group_split_dispatch and pandas hashing are validated by the E2E sweep only",
         "float arithmetic for stages/nsplits in TaskShuffle._layer: contract k^stages >= n_in checked, not proved",
     ]
     run.rule = ("exhaustive: all (n_in <= n_out <= N) x max_branch x output subsets: real TaskShuffle/SimpleShuffle._layer vs model (structural); DiskShuffle barrier structure; "
-                "E2E on real data: permutation, co-location, cross-frame partition numbers (int/float/int32/categorical/index keys), subsets; non-trivial = staged layer or data case")
+                "E2E on real data: permutation, co-location, cross-frame partition numbers (int/float/int32/categorical/index keys), subsets; "
+                "consumers (c12_joins): how x strategy (broadcast / heuristic / hash tasks+disk) x key naming (same, different, decoy column, index, two keys) x dtype x partition counts: "
+                "inputs of BlockwiseMerge/BroadcastJoin are permutations, equal keys share ONE partition number on both sides (incl. the pieces BroadcastJoin splits the big frame into), "
+                "(left row, right row) pairs = pandas; non-trivial = staged layer or data case")
     run.proofs("PropC12.v")
     m = common.Model()
     quick = run.tier == "quick"
     N = 10 if quick else 20
     branches = (2, 3, 4) if quick else (2, 3, 4, 5, 8)
+    group_contract(run)
     layer_sweep(run, m, N, branches)
     disk_structure(run, 8 if quick else 16)
     e2e(run, 9 if quick else 12, (2, 3) if quick else (2, 3, 4))
+    c12_joins.joins(run)
+
+
+def replay(path):
+    """./check C12 --replay <file>: re-run the failing input of a replay file (join cases of c12_joins)."""
+    import collections
+    import json
+    import rt
+    d = json.load(open(path))
+    case = d.get("case") or {}
+    if case.get("kind") != "join":
+        print("C12 replay: only the cases of the join family (kind=join) are replayable one by one; re-run ./check C12 with VERIF_SEED=%s" % d.get("seed"))
+        return 2
+    r = common.Run("C12", d.get("tier", "quick"), int(d.get("seed", 0)))
+    c12_joins.run_case(rt, r, case, collections.Counter())
+    for v in r.violations:
+        print("VIOLATION property=C12 (replayed) %s" % v["what"])
+    if not r.violations:
+        print("C12 replay: the input no longer fails")
+    return 1 if r.violations else 0
